@@ -1064,6 +1064,9 @@ class Collection(Type, s_abc.Collection):
         other_types = other.get_subtypes(schema)
         my_types = self.get_subtypes(schema)
 
+        if len(other_types) != len(my_types):
+            return -1
+
         type_dist = 0
         for ot, my in zip(other_types, my_types):
             el_dist = my.get_common_parent_type_distance(ot, schema)
@@ -1090,6 +1093,9 @@ class Collection(Type, s_abc.Collection):
         # that a.__class__ == b.__class__ is enough.
         parent_types = typing.cast(Collection, parent).get_subtypes(schema)
         my_types = self.get_subtypes(schema)
+
+        if len(parent_types) != len(my_types):
+            return False
 
         for pt, my in zip(parent_types, my_types):
             if not pt.is_any(schema) and not my.issubclass(schema, pt):
@@ -3509,12 +3515,16 @@ def is_type_compatible(
 
             # For tuples, we also (recursively) check that the element
             # names match
+            subtypes_a = list(t_a.iter_subtypes(schema))
+            subtypes_b = list(t_b.iter_subtypes(schema))
+            if len(subtypes_a) != len(subtypes_b):
+                return False
+
             return all(
                 name_a == name_b
                 and labels_compatible(st_a, st_b)
                 for (name_a, st_a), (name_b, st_b)
-                in zip(t_a.iter_subtypes(schema),
-                       t_b.iter_subtypes(schema))
+                in zip(subtypes_a, subtypes_b)
             )
         elif isinstance(t_a, Array) and isinstance(t_b, Array):
             t_as = t_a.get_element_type(schema)
